@@ -46,8 +46,9 @@ fn is_zero_width_count_case(s: &dyn Subject, bytes: &[u8]) -> bool {
     if !has_zero_width_sequence(&s.ty()) {
         return false;
     }
-    // a negative count taken for a size is a different defect (repaired by 0df90dd): the reference names it
-    !matches!(ref_decode(&s.ty(), bytes), Err(e) if e.kind == ErrKind::NegativeLength)
+    // the input must really ask for many zero-width elements (a negative count taken for a size — repaired by 0df90dd —
+    // leaves this at 0: the reference stops at the negative count)
+    refmodel::ref_zero_width_demand(&s.ty(), bytes) > 1024
 }
 
 pub struct Judged {
